@@ -27,6 +27,8 @@ CATALOG = ["heralded cnot", "postprocessed cnot", "klm cnot", "heralded cz"]
 METHODS = ["probs", "sample_count", "samples"]
 FIELD_KEYS = ["command", "circuit", "input_state", "parameters", "postselect", "heralds", "noise"]
 TOL = 1e-9
+CIRCUIT_CHANGES = ("retune", "set-circuit", "exp-set-circuit", "add-comp")
+REFUSALS = ("ValueError", "RuntimeError", "AssertionError", "TypeError")
 
 
 # ------------------------------------------------------------------------------------------------
@@ -84,14 +86,29 @@ def quiet():
 # ------------------------------------------------------------------------------------------------
 # specs -> objects
 # ------------------------------------------------------------------------------------------------
-def build_circuit(spec):
+def build_circuit(spec, values=None, keep=None):
+    """The circuit of a spec.  `values`: name -> value the user has set on a symbolic parameter (`P.set_value`);
+    `keep`: dict receiving the `P` objects (the user's own handles on the parameters)."""
     import perceval as pcvl
     c = pcvl.Circuit(spec["m"])
     for off, leaf in spec["leaves"]:
         c.add(off, gens.build_leaf(leaf))
-    for off, name in spec.get("sym", []):
-        c.add(off, pcvl.PS(pcvl.P(name)))
+    for sym in spec.get("sym", []):
+        off, name = sym[0], sym[1]
+        par = pcvl.P(name)
+        if values and name in values:
+            par.set_value(values[name])
+        if keep is not None:
+            keep[name] = par
+        if len(sym) > 2 and sym[2] == "BS":
+            c.add(off, pcvl.BS(theta=par))
+        else:
+            c.add(off, pcvl.PS(par))
     return c
+
+
+def sym_names(spec):
+    return [sym[1] for sym in spec.get("sym", [])]
 
 
 def numeric_unitary(circ):
@@ -183,17 +200,23 @@ def gen_pf(rng):
     return pf
 
 
-def gen_circ(rng, m, allow_sym=True):
+def gen_circ(rng, m, allow_sym=True, prefix="phi", max_leaves=5, p_sym=0.5):
     leaves = []
-    for _ in range(rng.randint(1, 5)):
+    for _ in range(rng.randint(1, max_leaves)):
         leaf = gens.gen_leaf(rng, m, kinds=("BS", "PS", "PERM", "U", "UH"))
         w = gens.leaf_width(leaf)
         leaves.append([rng.randint(0, m - w), leaf])
     sym = []
-    if allow_sym and rng.random() < 0.25:
+    if allow_sym and rng.random() < p_sym:
         for i in range(rng.randint(1, 2)):
-            sym.append([rng.randint(0, m - 1), f"phi{i}"])
+            if m >= 2 and rng.random() < 0.3:
+                sym.append([rng.randint(0, m - 2), f"{prefix}{i}", "BS"])
+            else:
+                sym.append([rng.randint(0, m - 1), f"{prefix}{i}"])
     return {"m": m, "leaves": leaves, "sym": sym}
+
+
+RETUNE_VALUES = [0.0, 0.3, 0.9, 1.2, 2.5, 3.0, 4.75]
 
 
 def gen_noise(rng):
@@ -256,7 +279,7 @@ def gen_start(rng, tr, max_m):
         m = rng.randint(1, max_m)
         tr.update(m=m, size=m, heralds=[], remote_built=True, sym=[], has_input=False, has_filter=False)
         circ = gen_circ(rng, m)
-        tr["sym"] = [n for _, n in circ["sym"]]
+        tr["sym"] = sym_names(circ)
         return {"kind": "remote", "via_set": rng.random() < 0.4, "m": m, "circ": circ,
                 "noise": gen_noise(rng) if rng.random() < 0.3 else None}
     # local processor, converted
@@ -273,7 +296,7 @@ def gen_start(rng, tr, max_m):
     else:
         m = rng.randint(1, max_m)
         circ = gen_circ(rng, m)
-        tr["sym"] = [n for _, n in circ["sym"]]
+        tr["sym"] = sym_names(circ)
         st = {"kind": "local", "base": "circuit", "m": m, "circ": circ, "catalog": []}
         size = m
         heralds = []
@@ -335,7 +358,7 @@ def gen_ops(rng, tr, n_ops):
     """Configuration calls, then (mostly) a sampler phase: sampler, iterations, job creation, execution."""
     st = {"m": tr["m"], "size": tr["size"], "heralds": list(tr["heralds"]), "filt": tr["has_filter"], "sampler": False,
           "inp": tr["has_input"],
-          "njobs": 0, "used": set(), "stale": set()}
+          "njobs": 0, "used": set(), "stale": set(), "nsym": 0}
 
     def stale_all():
         # a created job aliases processor._parameters and the sampler's iterator list: jobs created before a
@@ -381,6 +404,38 @@ def gen_ops(rng, tr, n_ops):
                 st["m"] -= 1
                 return {"op": "add_herald", "mode": k, "expected": rng.randint(0, 1)}
         return prepare_op()
+
+    def herald_op():
+        moi = [k for k in range(st["size"]) if k not in st["heralds"]]
+        k = rng.choice(moi)
+        st["heralds"].append(k)
+        st["m"] -= 1
+        return {"op": "add_herald", "mode": k, "expected": rng.randint(0, 1)}
+
+    def circuit_op():
+        """The circuit of the long-lived processor changes: a parameter value set in place, the whole circuit
+        replaced (through the processor or through its experiment), a component appended."""
+        r = rng.random()
+        size = st["size"]
+        heralds = st["heralds"] if tr["remote_built"] else list(range(st["m"], size))   # conversion moves them last
+        st["nsym"] += 1
+        if r < 0.45 and tr["sym"]:
+            return {"op": "retune", "name": rng.choice(tr["sym"]), "v": rng.choice(RETUNE_VALUES),
+                    "own": rng.random() < 0.5}
+        if r < 0.8:
+            m = size if rng.random() < 0.93 else max(1, size + rng.choice([-1, 1]))
+            spec = gen_circ(rng, m, prefix=f"s{st['nsym']}q", p_sym=0.5)
+            if m == size:
+                tr["sym"] = sym_names(spec)
+            return {"op": "set_circuit", "via": rng.choice(["rp", "exp"]), "circ": spec}
+        w = rng.choice([1, 2, 2])
+        cand = [k for k in range(size - w + 1) if all(j not in heralds for j in range(k, k + w))]
+        if not cand:
+            w = 1
+            cand = [k for k in range(size) if k not in heralds]
+        spec = gen_circ(rng, w, prefix=f"a{st['nsym']}q", max_leaves=2, p_sym=0.3)
+        tr["sym"] = tr["sym"] + sym_names(spec)
+        return {"op": "add_comp", "k": rng.choice(cand), "circ": spec}
 
     def prepare_op():
         kw = []
@@ -484,7 +539,7 @@ def gen_ops(rng, tr, n_ops):
         st["filt"] = True
         ops.append({"op": "filter", "n": rng.choice([0, 0, 1, 2, 3])})
     for _ in range(n_cfg):
-        ops.append(config_op())
+        ops.append(config_op() if rng.random() < 0.9 else circuit_op())
     if rng.random() < 0.2:
         ops.append(prepare_op())
     if rng.random() < 0.85:
@@ -502,20 +557,41 @@ def gen_ops(rng, tr, n_ops):
                 ops.append(iters_op())
             elif r < 0.19:
                 ops.append({"op": "clear_iters"})
-            elif r < 0.30:
+            elif r < 0.28:
                 ops.append(config_op())
-            elif r < 0.34:
+            elif r < 0.36:
+                ops.append(circuit_op())
+            elif r < 0.40:
                 ops.append(sampler_op())
             else:
                 ops.append(job_op())
                 left -= 1
                 if rng.random() < 0.1:
-                    ops.append(config_op())
+                    ops.append(config_op() if rng.random() < 0.6 else circuit_op())
                 if rng.random() < 0.9:
                     ops.append(execute_op())
             left -= 1
         if st["njobs"] and rng.random() < 0.15:
             ops.append(execute_op())
+    elif rng.random() < 0.5:
+        ops.append(circuit_op())
+        ops.append(prepare_op())
+    if rng.random() < 0.35:
+        # a scan on the same long-lived processor: request, change, request, change, request …
+        if not st["sampler"] or rng.random() < 0.4:
+            ops.append(prepare_op())
+        for _ in range(rng.randint(1, 3)):
+            if tr["remote_built"] and st["m"] > 1 and rng.random() < 0.2:
+                ops.append(herald_op())
+                if st["inp"]:
+                    ops.append({"op": "with_input", "s": gen_state(rng, st["m"], rng.choice([3, 4]))})
+            else:
+                ops.append(circuit_op() if rng.random() < 0.75 else config_op())
+            if st["sampler"] and rng.random() < 0.6:
+                ops.append(job_op())
+                ops.append(execute_op())
+            else:
+                ops.append(prepare_op())
     return ops
 
 
@@ -555,6 +631,15 @@ class Session:
         self.states = []
         self.oracle_failures = []  # (signature, what)
         self.flags = set()
+        # the circuit the user built, as a recipe independent of the objects the code under test holds:
+        # base spec (remote circuit / local processor), components appended later, parameter values set so far
+        self.cs = None             # {"base": (kind, spec), "extra": [(k, spec)], "values": {name: v}, "direct": bool}
+        self.conv_perm = None      # relabelling (new mode -> local mode) found right after the conversion
+        self.user_P = {}           # name -> the user's own Parameter objects
+        self.u_local0 = None
+        self.circ_history = []     # circuits the processor held earlier in the session
+        self.seen_payload = False  # a request has already been produced from this processor
+        self.pending = set()       # what the user changed since the last request
         # what the user configured (direct oracle)
         self.intent = {"filter": None, "noise": None, "post": None, "input": None, "input_fresh": False,
                        "heralds": {}, "circ": None, "converted": False, "local_heralds": {}, "max_shots": None,
@@ -578,11 +663,12 @@ class Session:
         pcvl = self.pcvl
         st = self.scen["start"]
         if st["kind"] == "remote":
-            circ = build_circuit(st["circ"])
+            circ = build_circuit(st["circ"], keep=self.user_P)
             self.circs.append(numeric_unitary(circ))
+            self.cs = {"base": ("remote", st["circ"]), "extra": [], "values": {}, "direct": True}
             nid = self.noise_id(st["noise"])
             lop = {"op": "new_remote", "via_set": st["via_set"], "m": st["m"], "circ": 0,
-                   "cparams": [n for _, n in st["circ"].get("sym", [])], "noise": nid}
+                   "cparams": sym_names(st["circ"]), "noise": nid}
             self.flags.add("remote-built")
 
             def do():
@@ -610,6 +696,8 @@ class Session:
         inp = p.input_state
         u_local = numeric_unitary(p.experiment.unitary_circuit())
         self.circs.append(u_local)
+        self.u_local0 = u_local
+        self.cs = {"base": ("local", st), "extra": [], "values": {}, "direct": False}
         exp_noise = p.experiment.noise
         nid = None
         if exp_noise is not None:
@@ -646,6 +734,12 @@ class Session:
             return {"done": True}
         self.run_op(lop, do)
         if self.rp is not None:
+            try:
+                self.conv_perm = self.find_relabelling(self.intent, numeric_unitary(self.rp.linear_circuit()),
+                                                       {int(k): int(v) for k, v in self.rp.heralds.items()})
+            except Exception:
+                self.conv_perm = None
+        if self.rp is not None:
             # direct oracle: the conversion preserves what the user configured on the local processor
             rp = self.rp
             try:
@@ -671,16 +765,43 @@ class Session:
                                               f"({self.outs[-1].get('msg', '')}) on a local processor with heralds "
                                               f"{dict(p.heralds)} and input state {inp}"))
 
-    def build_local(self, st):
+    def circuit_matrix(self, cs):
+        """Matrix of the user's circuit described by the recipe `cs`, rebuilt from the specs (fresh objects): in the
+        local processor's labelling when `cs['direct']` is false, in the remote processor's own labelling otherwise."""
+        kind, spec = cs["base"]
+        if kind == "remote":
+            u = numeric_unitary(build_circuit(spec, cs["values"]))
+        else:
+            names = set(sym_names(spec["circ"])) if spec.get("base") == "circuit" else set()
+            if names & set(cs["values"]):
+                saved = self.local_user_input
+                try:
+                    u = numeric_unitary(self.build_local(spec, cs["values"], None).experiment.unitary_circuit())
+                finally:
+                    self.local_user_input = saved
+            else:
+                u = self.u_local0
+            if cs["direct"]:
+                u = relabel(u, self.conv_perm)
+        for k, spec in cs["extra"]:
+            w = spec["m"]
+            e = np.eye(u.shape[0], dtype=complex)
+            e[k:k + w, k:k + w] = numeric_unitary(build_circuit(spec, cs["values"]))
+            u = e @ u
+        return u
+
+    def build_local(self, st, values=None, keep="user"):
         pcvl = self.pcvl
         from perceval.components import Port
         from perceval.utils import Encoding
         self.local_user_input = None
+        if keep == "user":
+            keep = self.user_P
         if st["base"] == "catalog":
             p = pcvl.catalog[st["name"]].build_processor()
         else:
             p = pcvl.Processor("SLOS", st["m"])
-            p.add(0, build_circuit(st["circ"]))
+            p.add(0, build_circuit(st["circ"], values, keep))
             for off, name in st["catalog"]:
                 p.add(off, pcvl.catalog[name].build_processor())
         for s in st["steps"]:
@@ -757,6 +878,7 @@ class Session:
             def do():
                 rp.with_input(pcvl.BasicState(op["s"]))
                 it.update(input=list(op["s"]), input_fresh=True)
+                self.pending.add("input")
                 self.flags.add("input-after-convert" if it["converted"] else "input-remote")
                 return {"done": True}
             self.run_op({"op": k, "s": op["s"]}, do)
@@ -770,12 +892,14 @@ class Session:
                 if it["input"] is not None:
                     it["input_fresh"] = False
                 self.flags.add("remote-herald")
+                self.pending.add("herald")
                 return {"done": True}
             self.run_op({"op": k, "mode": op["mode"], "expected": op["expected"]}, do)
         elif k == "filter":
             def do():
                 rp.min_detected_photons_filter(op["n"])
                 it["filter"] = op["n"]
+                self.pending.add("filter")
                 if op["n"] == 0:
                     self.flags.add("filter-zero")
                 return {"done": True}
@@ -790,6 +914,7 @@ class Session:
                 else:
                     rp.set_postselection(self.posts[pid])
                     it["post"] = (self.posts[pid], "remote")
+                self.pending.add("post")
                 return {"done": True}
             self.run_op({"op": k, "p": pid}, do)
         elif k == "noise":
@@ -798,6 +923,7 @@ class Session:
             def do():
                 rp.noise = None if nid is None else self.noises[nid]
                 it["noise"] = None if nid is None else self.noises[nid]
+                self.pending.add("noise")
                 if it["converted"]:
                     self.flags.add("noise-after-convert")
                 return {"done": True}
@@ -812,6 +938,69 @@ class Session:
                 rp.clear_parameters()
                 return {"done": True}
             self.run_op({"op": k}, do)
+        elif k in ("retune", "set_circuit", "add_comp"):
+            if self.cs is None or (it["converted"] and self.conv_perm is None):
+                return False
+            cs = self.cs
+            keep = {}
+            if k == "retune":
+                params = rp.get_circuit_parameters()
+                if op["name"] not in params:
+                    return False
+                cand = dict(cs, values=dict(cs["values"], **{op["name"]: op["v"]}))
+                lop = {"op": k}
+                kind = "retune"
+
+                def real():
+                    par = self.user_P.get(op["name"]) if op["own"] else None
+                    if par is None or par is not params[op["name"]]:
+                        par = params[op["name"]]      # the handle the processor gives on its own parameter
+                    else:
+                        self.flags.add("retune-own-handle")
+                    par.set_value(op["v"])
+            elif k == "set_circuit":
+                spec = op["circ"]
+                circ = build_circuit(spec, keep=keep)
+                cand = {"base": ("remote", spec), "extra": [], "values": dict(cs["values"]), "direct": True}
+                lop = {"op": k, "checked": op["via"] == "rp", "size": spec["m"], "cparams": sym_names(spec)}
+                kind = "set-circuit" if op["via"] == "rp" else "exp-set-circuit"
+
+                def real():
+                    if op["via"] == "rp":
+                        rp.set_circuit(circ)
+                    else:
+                        rp.experiment.set_circuit(circ)
+            else:
+                spec = op["circ"]
+                w, k0 = spec["m"], op["k"]
+                if rp.post_select_fn is not None or k0 + w > rp.circuit_size or \
+                        any(j in rp.heralds for j in range(k0, k0 + w)):
+                    return False
+                circ = build_circuit(spec, keep=keep)
+                cand = dict(cs, extra=cs["extra"] + [(k0, spec)], direct=True)
+                lop = {"op": k, "cparams": sym_names(spec)}
+                kind = "add-comp"
+
+                def real():
+                    rp.add(k0, circ)
+            if k == "set_circuit" and spec["m"] != rp.circuit_size:
+                u = numeric_unitary(circ)           # refused by the size check: only the symbol's number matters
+            else:
+                u = self.circuit_matrix(cand)
+            self.circs.append(u)
+            lop["circ"] = len(self.circs) - 1
+
+            def do():
+                real()
+                self.cs = cand
+                self.user_P.update(keep)
+                self.circ_history.append((it["circ"], it.get("circ_direct", False)))
+                it.update(circ=u, circ_direct=cand["direct"])
+                self.pending.add(kind)
+                if it["converted"]:
+                    self.flags.add("circuit-change-on-converted")
+                return {"done": True}
+            self.run_op(lop, do)
         elif k == "prepare":
             kw = {a: b for a, b in op["kw"]}
 
@@ -819,11 +1008,19 @@ class Session:
                 data = rp.prepare_job_payload(op["cmd"], circuitless=op["circuitless"], inputless=op["inputless"], **kw)
                 pl = self.wire(data["payload"])
                 self.check_payload(pl, op["cmd"], set(kw), op["circuitless"], op["inputless"], None)
+                for kind in self.request_made():
+                    if not (op["circuitless"] and kind in CIRCUIT_CHANGES) and not (op["inputless"] and kind == "input"):
+                        self.flags.add(kind + "-between-payloads")
                 return {"payload": pl}
             self.run_op({"op": k, "cmd": op["cmd"], "circuitless": op["circuitless"], "inputless": op["inputless"],
                          "kw": [[a, b] for a, b in kw.items()]}, do)
             if "err" in self.outs[-1]:
                 self.check_rejection(op)
+                if self.outs[-1]["err"] not in REFUSALS:
+                    # not one of the documented refusals (filter unset, platform constraints, size assertions,
+                    # duplicate keyword): the code under test crashed on a legal call
+                    self.fail("payload-crash", f"prepare_job_payload({op['cmd']!r}) raised {self.outs[-1]['err']}: "
+                                               f"{self.outs[-1].get('msg', '')}")
         elif k == "sampler":
             def do():
                 self.sampler = pcvl.algorithm.Sampler(rp, max_shots_per_call=op["ms"])
@@ -887,7 +1084,7 @@ class Session:
             def do():
                 job = getattr(self.sampler, op["method"])
                 self.jobs.append([job, False, op["method"], list(it["sampler_its"]), it["max_shots"], self.snapshot(),
-                                  self.epoch])
+                                  self.epoch, self.request_made()])
                 return {"done": True}
             self.run_op({"op": k, "method": op["method"]}, do)
         elif k == "execute":
@@ -908,6 +1105,9 @@ class Session:
                 self.flags.add("execute-sent")
                 self.check_payload(sent["payload"], None, set(), False, False, rec)
                 self.check_limit(sent["payload"], op["args"], kw)
+                for kind in rec[7]:
+                    self.flags.add(kind + "-between-payloads")
+                    self.flags.add(kind + "-between-jobs")
                 if sent.get("job_name") != rec[2]:
                     self.oracle_failures.append(("job-name", f"job_name {sent.get('job_name')} != {rec[2]}"))
                 return {"sent": {"job_name": sent.get("job_name"), "payload": sent["payload"]}}
@@ -915,6 +1115,13 @@ class Session:
         else:
             raise ValueError(k)
         return True
+
+    def request_made(self):
+        """A request (payload) has just been built from the processor: what the user changed since the previous one."""
+        changed = sorted(self.pending) if self.seen_payload else []
+        self.pending = set()
+        self.seen_payload = True
+        return changed
 
     # -- direct oracle ---------------------------------------------------------------------------
     def fail(self, sig, what):
@@ -929,6 +1136,10 @@ class Session:
             return None
         if not it["converted"]:
             return list(range(n)) if np.allclose(u_sent, u, atol=TOL, rtol=0) else None
+        if it.get("circ_direct"):
+            # the user has since replaced / extended the circuit of the converted processor: `u` is expressed in the
+            # remote processor's own labelling; post-selections given on the local processor keep the conversion's
+            return list(self.conv_perm) if np.allclose(u_sent, u, atol=TOL, rtol=0) else None
         lh = it["local_heralds"]
         moi_l = [k for k in range(n) if k not in lh]
         moi_s = [k for k in range(n) if k not in sent_heralds]
@@ -985,10 +1196,19 @@ class Session:
             if not isinstance(c, ACircuit):
                 self.fail("payload-circuit", f"circuit field is {type(c).__name__}")
             else:
-                perm = self.find_relabelling(it, numeric_unitary(c), sent_heralds)
+                u_sent = numeric_unitary(c)
+                perm = self.find_relabelling(it, u_sent, sent_heralds)
                 if perm is None:
-                    self.fail("payload-circuit", "the circuit sent is not the user's circuit (no relabelling of herald "
-                                                 "modes makes the matrices equal)")
+                    stale = any(self.find_relabelling(dict(it, circ=old, circ_direct=d), u_sent, sent_heralds) is not None
+                                for old, d in self.circ_history)
+                    if stale:
+                        self.fail("payload-circuit-stale",
+                                  "the circuit sent is not the circuit of the user's processor at the time of the request "
+                                  "but an earlier one (a parameter value was set / the circuit was replaced or extended "
+                                  "since, on the same RemoteProcessor)")
+                    else:
+                        self.fail("payload-circuit", "the circuit sent is not the user's circuit (no relabelling of "
+                                                     "herald modes makes the matrices equal)")
         # input
         want_input = it["input"] is not None and not inputless
         if want_input:
@@ -1239,7 +1459,9 @@ def compare(ses: Session, rep):
         elif "payload" in ro:
             bad = diff_payload(ses, ro["payload"], mo.get("payload", []))
             if bad:
-                res.append(("broken", "model-vs-code:prepare:" + ",".join(bad), f"{where}: payload fields differ: {bad}"))
+                if not any(k == "violation" for k, *_ in res):   # else: the direct oracle already explains it
+                    res.append(("broken", "model-vs-code:prepare:" + ",".join(bad),
+                                f"{where}: payload fields differ: {bad}"))
                 return res
         elif "sent" in ro:
             s = mo.get("sent")
@@ -1250,7 +1472,9 @@ def compare(ses: Session, rep):
             if ro["sent"]["job_name"] != s["job_name"]:
                 bad.append("job_name")
             if bad:
-                res.append(("broken", "model-vs-code:execute:" + ",".join(bad), f"{where}: sent fields differ: {bad}"))
+                if not any(k == "violation" for k, *_ in res):
+                    res.append(("broken", "model-vs-code:execute:" + ",".join(bad),
+                                f"{where}: sent fields differ: {bad}"))
                 return res
         bad = diff_state(rs, ms)
         if bad:
@@ -1278,7 +1502,7 @@ def sig_of(scen, ses):
             tuple((o["op"], o.get("method"), len(o.get("args", [])), o.get("n"), tuple(o.get("s", []))) for o in ses.lean_ops))
 
 
-def account(chk, scen, ses, rep):
+def account(chk, scen, ses, rep, corpus=False):
     st = scen["start"]
     chk.count("start", st["kind"] + (":" + st["base"] if "base" in st else ""))
     chk.count("n_ops", len(ses.lean_ops))
@@ -1288,7 +1512,8 @@ def account(chk, scen, ses, rep):
         chk.count("circuit_size", s0["size"])
     chk.count("commands", ",".join(scen["pf"]["commands"]) or "(none)")
     for f in ses.flags:
-        chk.branch(f)
+        # stored cases do not count for the generator's coverage obligations (`required_branches`)
+        chk.branch("corpus/" + f if corpus else f)
     if ses.dropped:
         chk.branch("ops-dropped", ses.dropped)
     n_payload = 0
@@ -1364,7 +1589,7 @@ def shrink(chk, scen, sig):
     return cur
 
 
-def handle(chk, scen, rep=None, ses=None, do_shrink=True):
+def handle(chk, scen, rep=None, ses=None, do_shrink=True, corpus=False):
     try:
         if ses is None:
             ses, rep, fl = judge(chk, scen)
@@ -1373,7 +1598,7 @@ def handle(chk, scen, rep=None, ses=None, do_shrink=True):
     except Discard:
         chk.branch("discarded")
         return
-    account(chk, scen, ses, rep if "outs" in rep else {"outs": [{}] * len(ses.lean_ops)})
+    account(chk, scen, ses, rep if "outs" in rep else {"outs": [{}] * len(ses.lean_ops)}, corpus)
     seen = set()
     for kind, sig, what in fl:
         if (kind, sig) in seen:
@@ -1414,10 +1639,16 @@ def run(chk: core.Check):
                              "clamp-lowered-by-one",
                              "handle-params-rejected", "execute-typeerror", "iterator-sent", "iteration-rejected",
                              "primitive-converted", "primitive-none-or-constraints", "mapping-delta", "kw-collision",
-                             "noise-after-convert", "input-after-convert", "input-before-convert"]
+                             "noise-after-convert", "input-after-convert", "input-before-convert",
+                             # a long-lived RemoteProcessor changed between two requests built from it
+                             "retune-between-payloads", "retune-between-jobs", "retune-own-handle",
+                             "set-circuit-between-payloads", "exp-set-circuit-between-payloads",
+                             "add-comp-between-payloads", "set-circuit-between-jobs", "exp-set-circuit-between-jobs",
+                             "input-between-payloads", "filter-between-payloads", "noise-between-payloads",
+                             "post-between-payloads", "herald-between-payloads", "circuit-change-on-converted"]
     chk.lean = core.LeanDriver("C16")
     for scen in load_corpus():
-        handle(chk, scen)
+        handle(chk, scen, corpus=True)
     rng = chk.rng
     n = chk.pick(500, 8000)
     max_m = chk.pick(6, 8)
